@@ -300,19 +300,20 @@ Definition h_numrings : handoff := {|
   h_take_kind := ALoad;
   h_payload := "the ring array entries constructed before numRings_ is raised" |}.
 
-Definition handoffs : list handoff :=
-  [h_spsc_push_pop; h_spsc_pop_push; h_mpmc_push_pop; h_mpmc_pop_push; h_event; h_latch_direct; h_latch_last;
-   h_future_result; h_then_chain; h_whenall; h_async_ready; h_async_consumed; h_cvec; h_arena_size; h_arena_table;
-   h_rw_unlock_lock; h_rw_readers_writer_rmw; h_rw_readers_writer_load; h_taskset; h_ts_exception; h_graph; h_numrings].
-
-(* Hand-offs the source does NOT order by release/acquire (recorded, never proved): evaluated on every run, reported as
-   findings while [handoff_ok] is false, and silently fine once the source provides the orders. *)
-Definition g_future_refcount : handoff := {|
+Definition h_future_refcount : handoff := {|
   h_name := "future.refcount_dealloc";
   h_off := [fib ++ "decRefCountMaybeDestroy:refCount_:fetch_sub#0"]; h_off_kind := ARmw;
   h_take := [fib ++ "decRefCountMaybeDestroy:refCount_:fetch_sub#0"]; h_take_kind := ARmw;
-  h_payload := "the future's shared state: read by every holder before its decrement, destroyed and freed by the holder whose decrement returns 1 (needs acquire on that decrement or an acquire fence before dealloc())" |}.
+  h_payload := "the future's shared state: read by every holder before its decrement, destroyed and freed by the holder whose decrement returns 1; the same site offers (>= Release) and takes (>= Acquire), i.e. acq_rel -- release-only until the repair 'fix: FutureImplBase::decRefCountMaybeDestroy ... acq_rel' in /repo" |}.
 
+Definition handoffs : list handoff :=
+  [h_spsc_push_pop; h_spsc_pop_push; h_mpmc_push_pop; h_mpmc_pop_push; h_event; h_latch_direct; h_latch_last;
+   h_future_result; h_then_chain; h_whenall; h_async_ready; h_async_consumed; h_cvec; h_arena_size; h_arena_table;
+   h_rw_unlock_lock; h_rw_readers_writer_rmw; h_rw_readers_writer_load; h_taskset; h_ts_exception; h_graph; h_numrings;
+   h_future_refcount].
+
+(* Hand-offs the source does NOT order by release/acquire (recorded, never proved): evaluated on every run, reported as
+   findings while [handoff_ok] is false, and silently fine once the source provides the orders. *)
 Definition g_wakestate : handoff := {|
   h_name := "thread_pool.wakeState_publication";
   h_off := ["thread_pool.cpp:ThreadPool::ThreadPool:wakeState_:store#0"; "thread_pool.cpp:ThreadPool::resizeLocked:wakeState_:store#0"];
@@ -320,7 +321,7 @@ Definition g_wakestate : handoff := {|
   h_take := ["thread_pool.h:consumeLoad:ptr:load#0"]; h_take_kind := ALoad;
   h_payload := "the PoolWakeState object constructed before the pointer is stored; consumeLoad is a relaxed load + TSAN annotation: dependency-ordered only, which the C++ model does not order" |}.
 
-Definition gap_handoffs : list handoff := [g_future_refcount; g_wakestate].
+Definition gap_handoffs : list handoff := [g_wakestate].
 
 Definition status_of (h : handoff) : string * bool := (h_name h, handoff_ok h).
 Definition all_status : list (string * bool) := map status_of handoffs.
